@@ -68,7 +68,7 @@ type ReqRecord struct {
 // Corruption describes one single-field corruption applied to the idx-th response.
 type Corruption struct {
 	At   int    // response index (0-based), -1 = none
-	Kind string // digest-wrong | digest-malformed | length+1 | length-1 | length-absent | ctype-other | ctype-garbage | status-500 | status-404 | conn-error
+	Kind string // digest-wrong | digest-wrong-sha512 | digest-malformed | length+1 | length-1 | length-absent | ctype-other | ctype-garbage | status-500 | status-404 | conn-error
 }
 
 type Registry struct {
@@ -226,6 +226,11 @@ func (g *Registry) corrupt(resp *http.Response) {
 	case "digest-wrong":
 		if resp.Header.Get("Docker-Content-Digest") != "" {
 			resp.Header.Set("Docker-Content-Digest", digest.FromString("some other content").String())
+			g.Applied = k
+		}
+	case "digest-wrong-sha512": // a well-formed digest of other content, under another registered algorithm than the one asked for
+		if resp.Header.Get("Docker-Content-Digest") != "" {
+			resp.Header.Set("Docker-Content-Digest", digest.SHA512.FromString("some other content").String())
 			g.Applied = k
 		}
 	case "digest-malformed":
